@@ -874,7 +874,7 @@ def _(a, T):
     from okdmr.dmrlib.etsi.layer2.burst import Burst
     from okdmr.dmrlib.etsi.layer2.elements.burst_types import BurstTypes
 
-    b = T.obj("burst", [a["data"], a["bt"]], lambda: Burst.from_bytes(T.bytes(a["data"]), BurstTypes[a["bt"]]))
+    b = T.obj("burst", [a["data"], a["bt"]], lambda: Burst.from_bytes(T.bytes(a["data"]), BurstTypes[a["bt"]]), snapshot=False)  # receiver
     return (b.as_bits(), b.as_bytes(), repr(b), b.target_radio_id)
 
 
